@@ -21,6 +21,7 @@ from outrank.algorithms.sketches.counting_counters_ordinary import PrimitiveCons
 from outrank.algorithms.sketches.counting_ultiloglog import HyperLogLogWCache
 
 from sim import proc
+from sim.alloc import alloc
 from sim.engines import register
 from sim.refmodel import aggregate, sampler, stats
 
@@ -61,6 +62,20 @@ class FakeClock:
         self.now += max(0.0, float(dt))
 
 
+class Unavailable(Exception):
+    """The function under test no longer has the signature this driver knows (e.g. it gained a parameter).  The
+    history cannot be driven directly; the property's pipeline part (which uses the repo's own call sites) still runs."""
+
+
+def _call(fn, *args):
+    try:
+        return fn(*args)
+    except TypeError as e:
+        if e.__traceback__.tb_next is None:        # raised while binding the arguments, not inside fn
+            raise Unavailable(f'{getattr(fn, "__name__", fn)}: {e}')
+        raise
+
+
 class _Pbar:
     def set_description(self, *a, **k):
         pass
@@ -71,18 +86,25 @@ class _Pbar:
 
 # ------------------------------------------------------------------------------------- C07 sampler
 def _sampler_history(a):
+    clock = FakeClock()
+    alloc.install(a.get('poison'))
     lists = [[tuple(c) for c in lst] for lst in a['lists']]
     model = sampler.SamplerModel()
     problems = []
     binding = 0
     states = set()
     for step, op in enumerate(a['ops']):
+        if op.get('tick'):
+            clock.advance(op['tick'])
         cand = list(lists[op['list']])
         if op.get('perm') is not None:
             random.Random(op['perm']).shuffle(cand)
         cap = op['cap']
         ns = types.SimpleNamespace(combination_number_upper_bound=cap)
-        out = core_ranking.prior_combinations_sample(list(cand), ns)
+        try:
+            out = _call(core_ranking.prior_combinations_sample, list(cand), ns)
+        except Unavailable as e:
+            return {'problems': [], 'unavailable': str(e), 'binding_steps': 0, 'states': [], 'steps': 0}
         out = [tuple(x) for x in out]
         for p in model.check_call(cand, cap, out):
             problems.append({'step': step, 'problem': p, 'cap': cap, 'size': len(cand)})
@@ -115,6 +137,8 @@ def job_sampler(job):
 
 # ------------------------------------------------------------------------------------- C13 statistics
 def _stats_history(a):
+    clock = FakeClock()
+    alloc.install(a.get('poison'))
     header = a['header']
     rows = a['rows']
     cuts = a['cuts']
@@ -134,11 +158,16 @@ def _stats_history(a):
         pos += size
         if not batch:
             continue
+        if a.get('ticks'):
+            clock.advance(a['ticks'][bi % len(a['ticks'])])
         seen += batch
         df = pd.DataFrame(batch, columns=header)
-        cov = core_ranking.compute_coverage(df, args)
-        core_ranking.compute_cardinalities(df, _Pbar(), bound)
-        core_ranking.compute_value_counts(df, args)
+        try:
+            cov = _call(core_ranking.compute_coverage, df, args)
+            _call(core_ranking.compute_cardinalities, df, _Pbar(), bound)
+            _call(core_ranking.compute_value_counts, df, args)
+        except Unavailable as e:
+            return {'problems': [], 'unavailable': str(e), 'final': {}, 'crossing_batches': 0, 'batches': 0}
         exp_cov = stats.coverage(batch, len(header), missing)
         for j, col in enumerate(header):
             got = cov[col] if col in cov else None
@@ -194,7 +223,10 @@ def _stats_history(a):
                 if os.path.exists(rp):
                     with open(rp, encoding='utf-8', newline='') as fh:
                         hdr, body = aggregate.parse_tsv(fh.read())
-                    got = sorted([r[0], r[1], int(r[2])] for r in body if len(r) >= 3)
+                    try:
+                        got = sorted([r[0], r[1], int(r[2])] for r in body if len(r) >= 3)
+                    except ValueError:
+                        got = [['<malformed row>'] + [r for r in body if len(r) >= 3 and not r[2].lstrip('-').isdigit()][0]]
                     if got != final['rare']:
                         problems.append({'kind': 'rare-report', 'written': got[:5], 'exact': final['rare'][:5], 'threshold': thr})
                     elif crash:
@@ -232,6 +264,7 @@ def hll_value(kind, i):
 
 def _hll_history(a):
     clock = FakeClock()
+    alloc.install(a.get('poison'))
     sk = HyperLogLogWCache(0.02)
     decoy = HyperLogLogWCache(0.02) if a.get('decoy') else None
     decoy_n = 0
@@ -342,6 +375,8 @@ def job_hll(job):
 
 # ------------------------------------------------------------------------------------- C15 frequency sketches
 def _cms_history(a):
+    clock = FakeClock()
+    alloc.install(a.get('poison'))
     np.random.seed(a['np_seed'])
     sk = CountMinSketch(a['depth'], a['width'])
     decoy = CountMinSketch(a['depth'], a['width']) if a.get('decoy') else None
@@ -381,6 +416,8 @@ def _cms_history(a):
             problems.append({'step': step, 'kind': 'row-sum', 'rows': [int(r) for r in rows], 'total': total})
 
     for step, op in enumerate(a['ops']):
+        if a.get('ticks'):
+            clock.advance(a['ticks'][step % len(a['ticks'])])
         if decoy is not None:
             decoy.add(f'decoy-{step % 7}', 3)
         if op[0] == 'add':
